@@ -299,6 +299,24 @@ def check_instance(ctx, tag, cls, kwargs, case):
                 with ctx.guard(("C12", cname, "property-exception-after-reparse", p), case):
                     ctx.check(same(v, getter(back)), ("C12", cname, "argument-lost-on-reparse", p),
                               f"{cname}({p}={v!r}): after re-parse {p} = {getter(back)!r}", case)
+            # the serialisation that declares its own namespaces, parsed back and then given an attribute of a namespace it did
+            # not use: still serialises to well-formed XML with that attribute in its namespace
+            with ctx.guard(("C12", cname, "with_ns-exception"), case):
+                xml_ns = e.serialize(with_ns=True)
+                back_ns = Element.from_tag(xml_ns)
+                ctx.check(type(back_ns) is type(e), ("C12", cname, "reparse-class/with_ns"), f"{xml_ns[:120]} re-parsed as {type(back_ns).__name__}", case)
+                foreign = "presentation:class" if not qn.startswith("presentation:") else "draw:name"
+                if foreign not in xml_ns:
+                    back_ns.set_attribute(foreign, "probe")
+                    out = back_ns.serialize()
+                    try:
+                        r2 = odfread.parse_fragment(out)
+                        ok_attr = r2.get(odfread.q(foreign)) == "probe"
+                    except Exception as ex:
+                        ok_attr = False
+                        out = f"{out[:160]} ({ex})"
+                    ctx.check(ok_attr, ("C12", cname, "foreign-attribute-after-with_ns-reparse"),
+                              f"from_tag(serialize(with_ns=True)) then set_attribute({foreign!r}): serialises to {out[:200]!r}", case)
             # the same infoset written with other namespace prefixes (valid XML; prefixes are not part of the infoset)
             with ctx.guard(("C12", cname, "alias-prefix-exception"), case):
                 xml2 = alias_prefixes(root)
